@@ -96,6 +96,16 @@ def isvec(t):
     return all(c == 1 for c in t.col_dims)
 
 
+def is_zero(t):
+    """the exactly-zero tensor (e.g. a - a): relative thresholds are 0/0 on it -> inadmissible for truncating calls"""
+    with probe.oracle():
+        try:
+            from ..dense import dense_b
+            return not np.any(dense_b(t))
+        except Exception:
+            return True
+
+
 # ---- step catalogue ---------------------------------------------------------------------------------------
 # producers: fn(pool, rng) -> (name, [results]) or None if not applicable;  never mutate operands by contract
 
@@ -243,7 +253,7 @@ def p_qtt(pool, rng):
 
 
 def p_svd(pool, rng):
-    a = pool.pick(rng, lambda t: std(t) and isvec(t) and t.order >= 2)
+    a = pool.pick(rng, lambda t: std(t) and isvec(t) and t.order >= 2 and not is_zero(t))
     if a is None:
         return None
     idx = int(rng.integers(1, a.order))
@@ -301,6 +311,8 @@ def c_ortho(pool, rng, t):
 
 
 def c_ortho_trunc(pool, rng, t):
+    if is_zero(t):
+        return None
     if rng.random() < 0.5:
         ok, r = call('TT.ortho', lambda: t.ortho(max_rank=int(rng.integers(1, 3))), prop=P)
     else:
@@ -363,6 +375,8 @@ def c_svd_overwrite(pool, rng, t):
     if not (std(t) and isvec(t) and t.order >= 2):
         return None
     idx = int(rng.integers(1, t.order))
+    if is_zero(t):
+        return None
     if rng.random() < 0.5:
         ok, r = call('TT.svd', lambda: t.svd(idx, overwrite=True), prop=P)
         return 'svd_overwrite', ([r[0], r[2]] if ok else []), True
